@@ -61,4 +61,37 @@ PROPS = {
         "exhaustive": {"quick": "all tuples of length <= 3 over the 12-route pool", "thorough": "all tuples of length <= 4 over the 12-route pool"},
         "assumptions": ["route prefixes in the dump are canonical (masked), as the kernel reports them"],
     },
+    "C01": {
+        "level_text": "Kernel-checked refinement: for every raw stanza, system state and forwarding value, parse-then-build equals the declarative per-stanza RA (header fields, options in the documented order, PREF64 lifetime formula, generation fails iff a wildcard source fails / no eligible RDNSS address); tied to the source by regenerated plugin order / purity facts and by differential runs of config.Parse + Interface.RouterAdvertisement on generated TOML documents with injected system state, each RA built 3 times and the configuration snapshotted.",
+        "level_note": "Trusted: Lean kernel; TOML decoding and the standard parsers are external parameters of the model (their results are passed alongside each raw string); purity of Apply rests on the extractor fact + repeated builds; harness generators.",
+        "packages": ["config"],
+        "gen": ["Config", "Plugin"],
+        "rule": "cases: generated advertising stanza (all stanza kinds, 0..3 of each, static and wildcard, deprecated, defaults/auto/infinite/explicit; 97 % valid stream) rendered to TOML, parsed by the real config.Parse, system state (addresses, loopback routes, MAC present/absent, clock around deadlines, failing sources) injected through the plugins' exported fields, RA built 3 times; non-trivial iff accepted, RA built and it carries at least 2 option kinds; distinct by canonical case line",
+        "assumptions": ["interface names, DNS names and URIs are opaque ids in the model", "zone-qualified RDNSS server strings are not generated (the model's addresses are zone-free)"],
+    },
+    "C02": {
+        "level_text": "Kernel-checked equivalence for every raw configuration: the procedural validator (early returns, Go control flow) accepts iff the declarative Documented predicate holds, and on acceptance returns exactly the documented resolution of defaults; float-derived min_interval default/bound proved over all whole-second values; tied to the source by regenerated bounds/defaults and differential runs of config.Parse on structured, boundary (limit-1ns/limit/limit+1ns) and malformed documents.",
+        "level_note": "Trusted: Lean kernel; TOML strict decoding, time.ParseDuration, netip.ParsePrefix/ParseAddr, ndp.NewCaptivePortal, net.ResolveTCPAddr are external parameters; 'never panics' for the decoder and standard parsers is exploration only (fuzzing under recover).",
+        "packages": ["config"],
+        "gen": ["Config", "Plugin"],
+        "rule": "cases: TOML documents rendered from generated raw configurations (60 % mostly-valid, 25 % boundary-heavy, 15 % invalid-heavy; 1..3 stanzas with name/names mixes and repeats), every single-key boundary triple on a minimal document, overlap pairs in both orders, plus a malformed stream (random bytes, mutated documents, grammar tokens) judged only for panics; evaluated by the real config.Parse; non-trivial iff the document has at least one interface stanza (reaches a validation decision other than 'no interfaces'); distinct by canonical case line",
+        "exhaustive": {"thorough": "every whole-second (max_interval 3..1801 s, min_interval 2 s..bound+1 s) pair and every default min_interval"},
+        "assumptions": ["readings of DESIGN.md section 7 (lifetime ranges, wildcard route exempt from overlap, monitor stanzas unvalidated)"],
+    },
+    "C03": {
+        "level_text": "Kernel-checked: every RA built from an accepted stanza (any system state with a sane clock and an absent or 6-byte MAC) is WireSafe, and for WireSafe RAs the field-level codec round trip is exactly truncation to the field unit; tied to the source by differential runs of the real ndp.MarshalMessage/ParseMessage on RAs of generated accepted configurations (boundary-heavy duration strings, arbitrary pref64 CIDRs, URI lengths around the limit).",
+        "level_note": "Trusted: Lean kernel; the byte-level codec (mdlayher/ndp) is a dependency: only its field ranges are modelled and validated differentially; float64 Duration.Seconds() is modelled as exact division.",
+        "packages": ["config"],
+        "gen": ["Config", "Plugin"],
+        "rule": "cases: as C01 with a third of the stanzas drawn from a boundary-heavy stream (negative, sub-second, sub-millisecond, >= 2^32 s, infinite, max-int64 duration strings; arbitrary pref64 CIDRs; URI lengths 245..256), each accepted RA marshalled and parsed back by the real codec; non-trivial iff accepted, built and the RA has at least one duration-carrying option; distinct by canonical case line",
+        "assumptions": ["clock not before the daemon's epoch (ClockSane)", "hardware address absent or 6 bytes (MacOK)", "DNS names well-formed, element counts within one option's 8-bit length"],
+    },
+    "C04": {
+        "level_text": "Kernel-checked for every stanza/state: not forwarding => router lifetime 0 and all other content equal to the forwarding RA; misconfiguration reported iff not forwarding and the configured lifetime is non-zero; forwarding => configured lifetime, no misconfiguration; every RA-generating path reads the live forwarding state (regenerated call-site facts). Tied to the source by differential runs (single generations here; flip histories over all paths in virtual time are in the corerad harness).",
+        "level_note": "Trusted: Lean kernel; call-site provenance facts from the go/ast extractor (three call sites of RouterAdvertisement, each fed by State.IPv6Forwarding in the same function); reading the real sysctl is outside the model.",
+        "packages": ["config"],
+        "gen": ["Advertise", "Metrics"],
+        "rule": "cases: as C01, forwarding on/off; non-trivial iff the RA was built; distinct by canonical case line",
+        "assumptions": ["misconfiguration is reported iff not forwarding and the configured lifetime is non-zero (DESIGN.md section 7)"],
+    },
 }
